@@ -125,8 +125,37 @@ def file_source_harness(w, size, replicas):
 
     def h(ex):
         data = [ex.fresh_int('u8', 'byte%d' % i) for i in range(size)]
+        for b in data:
+            ex.assume(z3.ULT(b.v, 128))          # the line source reads UTF-8 text: ASCII bytes
         ex.env['file_bytes'] = data
         emitted = []
+        if ex.env.get('native'):
+            runner, prof = ex.env['native']
+            ex.env['native_used'] = True
+            vals = [hlib.concrete_int(ex, b) for b in data]
+            txt = runner('file_source', [replicas, size] + vals)[prof]
+            ex.env['native_out'] = txt
+            if txt == 'PANIC' or 'OVERRUN' in txt:
+                raise Violation('the real FileSource panicked / did not terminate: %s' % txt, hlib._wit(ex))
+            byval = {}
+            pos = 0
+            for g, sec in enumerate(txt.split('|')):
+                for ln in sec.split():
+                    emitted.append((g, ln))
+            # compare as byte-value lists (positions are not visible natively)
+            lines, cur = [], []
+            for v in vals:
+                cur.append(v)
+                if v == 10:
+                    lines.append(cur)
+                    cur = []
+            if cur:
+                lines.append(cur)
+            want = sorted('[' + ','.join(map(str, l)) + ']' for l in lines)
+            if sorted(l for _, l in emitted) != want:
+                raise Violation('file lines are not emitted exactly once across the replicas', hlib._wit(ex),
+                                {'size': size, 'replicas': replicas, 'bytes': vals, 'emitted': emitted})
+            return {'native': txt}
         for g in range(replicas):
             src = hlib.mk_struct(w, 'FileSource', path=Opaque('PathBuf'), reader=none(), current=Int('usize', 0),
                                  end=Int('usize', 0), terminated=False, coord=none())
